@@ -255,12 +255,21 @@ func run(w *core.Worker, c Case) {
 			}
 		case "Zip", "Unzip":
 			n := len(c.M)
-			rows := make([][]P, n)
+			// two of three cases: the spread row list and every row carry spare capacity (extra row /
+			// extra elements behind the length) - cap-for-len slips and reslicing become visible
+			sp := int(core.HashString(core.JSON(c)) % 3)
+			rows := make([][]P, n, n+sp)
 			for i := range c.M {
-				rows[i] = make([]P, len(c.M[i]))
+				rows[i] = make([]P, len(c.M[i]), len(c.M[i])+sp)
 				for j, v := range c.M[i] {
 					rows[i][j] = P{v, i*n + j}
 				}
+				for j, rest := 0, rows[i][len(rows[i]):cap(rows[i])]; j < len(rest); j++ {
+					rest[j] = P{-77, -1 - j}
+				}
+			}
+			for j, rest := 0, rows[n:cap(rows)]; j < len(rest); j++ {
+				rest[j] = []P{{-78, -1 - j}}
 			}
 			tr := func(m [][]P) [][]P {
 				out := make([][]P, len(m))
